@@ -9,6 +9,7 @@
 //verif:replace github.com/multiformats/go-multiaddr.NewMultiaddrBytes vC16addrFromBytes
 //verif:shard VerifC16dServeDialRequest 16
 //verif:obligation C16.d serveDialRequest dominance, on every path through the real function for requests of <= 3 addresses with symbolic flags per address (unparsable, public, dialable, foreign IP = dial data required), every limiter answer and every read / write / resource failure: the server dials back at most once, only the requesting peer, only an address taken from the request - the first one that parses, is public (unless private addresses are allowed) and dialable, and the response reports exactly that index; when that address requires dial data the dial happens only after the dial-data rate limiter admitted the request AND the client's dial data was received in full; a request naming no public dialable address is answered E_DIAL_REFUSED without any dial; a request the limiter rejects is answered E_REQUEST_REJECTED without any dial; every admitted request releases its concurrency slot exactly once (also while another request of the same peer is in flight) and its reserved memory
+//verif:obligation C16.f the limits given to WithServerRateLimit (symbolic values) are exactly the limits the server's rate limiter enforces - global, per peer, dial data, per-peer concurrency - and the default server is limited in every dimension
 //verif:bound <= 3 addresses per request, one request per run
 //verif:stub stream / scope / host / network stubs; pbio reader and writer substituted at their call sites (protobuf I/O); getDialData (whose byte accounting is C16.b) and dialBack (C16.c) hooked to ghost events; multiaddr parsing replaced by atoms in the symbolic run, IsPublicAddr substituted by the per-address flag; zero dial wait
 //verif:outside more than 3 addresses, concurrent requests, the deadline expiring during the anti-thundering-herd wait
@@ -279,4 +280,20 @@ func VerifC16dServeDialRequest() {
 			vAssert(last == "response:E_REQUEST_REJECTED", "a request over the rate limit is rejected without any dial")
 		}
 	}
+}
+
+// ---- C16.f: the configured limits reach the limiter ----
+
+func VerifC16fConfiguredLimits() {
+	rpm, perPeer, dialData, conc := vRange(0, 1000), vRange(0, 1000), vRange(0, 1000), vRange(0, 10)
+	set := defaultSettings()
+	vAssert(WithServerRateLimit(rpm, perPeer, dialData, conc)(set) == nil, "option applies")
+	as := newServer(nil, set)
+	lim := as.limiter
+	vAssert(lim.RPM == rpm, "the configured global limit is the one enforced")
+	vAssert(lim.PerPeerRPM == perPeer, "the configured per-peer limit is the one enforced")
+	vAssert(lim.DialDataRPM == dialData, "the configured dial-data limit is the one enforced")
+	vAssert(lim.MaxConcurrentRequestsPerPeer == conc, "the configured per-peer concurrency is the one enforced")
+	def := newServer(nil, defaultSettings()).limiter
+	vAssert(def.RPM > 0 && def.PerPeerRPM > 0 && def.DialDataRPM > 0 && def.MaxConcurrentRequestsPerPeer > 0, "the default server is rate limited in every dimension")
 }
